@@ -23,7 +23,7 @@ class C20(Prop):
                    'the Windows-only replacements of libc functions (erf approximation) are not the code modelled',
                    'constant ND of the uniform prior is taken from its numeric definition (the gamma-function form is not evaluated)']
     unproved = ['the 22 translated array kernels (station / location-sample / tensor loops of all likelihoods, ln_prod / ln_combine / ln_multipliers, relative-amplitude loops, scatter binning) are '
-                'evaluated against the Python paths at Float; loop theorems (Props/C20Loops, C20LoopsCombined, C20Relative, C20Binning) cover all station kernels, all seven wrappers, the relative-amplitude loops and binning, not ln_prod / ln_combine / ln_multipliers; the *_gen variants, relative_amplitude_loop and random generation are not '
+                'evaluated against the Python paths at Float; loop theorems (Props/C20Loops, C20LoopsCombined, C20Relative, C20Binning) C20Misc) cover all station kernels, all seven wrappers, the relative-amplitude loops, binning, ln_prod / ln_combine / ln_multipliers and the reductions; the batched conversions cMultipleTape_MT6 / SDR_SDR have the Float evaluation only; the *_gen variants, relative_amplitude_loop and random generation are not '
                 'translated (listed per function in the evidence)',
                 'one-dimensional array reductions c_ln_normalise, c_dkl, c_dkl_uniform are translated (left folds) and evaluated against '
                 'ln_normalise / dkl of the Python path, without an equality theorem',
@@ -587,6 +587,12 @@ class C20(Prop):
         out = []
         if len(vals) != len(want):
             return [('%s: kernel returned %d values, Python path %d' % (k, len(vals), len(want)), None)]
+        if k.endswith('cN_SDR') and abs(want[1]) < 1e-6 and abs(vals[1]) < 1e-6:
+            # a horizontal plane has no strike of its own: strike and rake only enter through the slip direction (cos(s - r), sin(s - r), 0)
+            dm, dp_ = vals[0] - vals[2], want[0] - want[2]
+            if abs(((dm - dp_ + PI) % (2 * PI)) - PI) > 1e-6:
+                return [('%s%r: horizontal plane: the translated kernel gives slip direction strike - rake = %r, the Python path %r' % (k, tuple(case['args']), dm, dp_), None)]
+            return []
         for i, (m, p) in enumerate(zip(vals, want)):
             if (m != m) and (p != p):
                 continue
